@@ -27,26 +27,27 @@ UNITS = {
 # --------------------------------------------------------------------------------------------- properties
 PROPS = {
     "C01": dict(units=["comm", "builder"], tagged_units=["builder"], kani=["w_poll_passthrough"], level="proof",
-                bounded_scenarios=[("c02_exchange_model", "60 exchanges through the real crate: 5 child behaviours (cat, dd bs=1000, dd bs=70000, tee to stderr, slow reader) x 8 input sizes (0 .. 300000), 18 size-limit runs (6 limits x 3 sizes, two streams), one resumed time-limited exchange; a watchdog turns a hang into a failure")]),
+                bounded_scenarios=[("c02_exchange_model", "83 exchanges through the real crate: 5 child behaviours (cat, dd bs=1000, dd bs=70000, tee to stderr, slow reader) x 8 input sizes (0 .. 300000), 18 size-limit runs (6 limits x 3 sizes, two streams), 23 byte patterns (valid text, multi-byte sequences cut short at the end, invalid bytes) through read_string against String::from_utf8_lossy, one resumed time-limited exchange; a watchdog turns a hang into a failure")]),
     "C02": dict(units=["comm", "builder"], tagged_units=["builder"], kani=[], level="proof",
-                bounded_scenarios=[("c02_exchange_model", "60 exchanges through the real crate: 5 child behaviours (cat, dd bs=1000, dd bs=70000, tee to stderr, slow reader) x 8 input sizes (0 .. 300000), 18 size-limit runs (6 limits x 3 sizes, two streams), one resumed time-limited exchange; a watchdog turns a hang into a failure")]),
+                bounded_scenarios=[("c02_exchange_model", "83 exchanges through the real crate: 5 child behaviours (cat, dd bs=1000, dd bs=70000, tee to stderr, slow reader) x 8 input sizes (0 .. 300000), 18 size-limit runs (6 limits x 3 sizes, two streams), 23 byte patterns (valid text, multi-byte sequences cut short at the end, invalid bytes) through read_string against String::from_utf8_lossy, one resumed time-limited exchange; a watchdog turns a hang into a failure")]),
     "C03": dict(units=["comm"], kani=[], level="proof",
-                bounded_scenarios=[("c02_exchange_model", "60 exchanges through the real crate: 5 child behaviours (cat, dd bs=1000, dd bs=70000, tee to stderr, slow reader) x 8 input sizes (0 .. 300000), 18 size-limit runs (6 limits x 3 sizes, two streams), one resumed time-limited exchange; a watchdog turns a hang into a failure")]),
+                bounded_scenarios=[("c02_exchange_model", "83 exchanges through the real crate: 5 child behaviours (cat, dd bs=1000, dd bs=70000, tee to stderr, slow reader) x 8 input sizes (0 .. 300000), 18 size-limit runs (6 limits x 3 sizes, two streams), 23 byte patterns (valid text, multi-byte sequences cut short at the end, invalid bytes) through read_string against String::from_utf8_lossy, one resumed time-limited exchange; a watchdog turns a hang into a failure")]),
     "C04": dict(units=["comm"], kani=["w_poll_passthrough"], level="proof",
-                bounded_scenarios=[("c02_exchange_model", "60 exchanges through the real crate: 5 child behaviours (cat, dd bs=1000, dd bs=70000, tee to stderr, slow reader) x 8 input sizes (0 .. 300000), 18 size-limit runs (6 limits x 3 sizes, two streams), one resumed time-limited exchange; a watchdog turns a hang into a failure")]),
+                bounded_scenarios=[("c02_exchange_model", "83 exchanges through the real crate: 5 child behaviours (cat, dd bs=1000, dd bs=70000, tee to stderr, slow reader) x 8 input sizes (0 .. 300000), 18 size-limit runs (6 limits x 3 sizes, two streams), 23 byte patterns (valid text, multi-byte sequences cut short at the end, invalid bytes) through read_string against String::from_utf8_lossy, one resumed time-limited exchange; a watchdog turns a hang into a failure")]),
     "C05": dict(units=["spawn"], kani=["w_make_standard_stream", "w_dup2", "w_pipe", "w_set_inheritable"], level="proof"),
     "C06": dict(units=["spawn", "exec", "builder"], kani=["w_fork_ids", "w_os_to_cstring_b4"], level="proof",
+                bounded_scenarios=[("c15_path_lookup", "the explicit-executable cases of the PATH lookup scenario: argv[0] is what was given while the named executable is what runs, with and without slashes in either")],
                 natives=[("units/native/format_env.nt.rs", "9331 environment lists: all lists of 0..5 entries over the names {A,B,CC} and the values {empty, x}"),
                          ("units/native/cvec.nt.rs", "11132 argument vectors: 0..3 strings of length 0..3 (pairs/triples 0..2) over the bytes {a, /, NUL, 0xff}; pointer table read back through raw pointers")]),
     "C07": dict(units=["spawn", "exec"], kani=["w_pipe", "w_fork_ids"], level="proof"),
     "C15": dict(units=["exec", "splitpath"], kani=["b_split_path_b3"], level="proof",
-                bounded_scenarios=[("c15_path_lookup", "198 lookups on a real file system: all 64 placements of {nothing, non-executable file, directory, executable} under 3 PATH directories x 3 PATH spellings (plain, with empty and duplicate entries), plus 6 slash / explicit-executable cases")]),
+                bounded_scenarios=[("c15_path_lookup", "202 lookups on a real file system: all 64 placements of {nothing, non-executable file, directory, executable} under 3 PATH directories x 3 PATH spellings (plain, with empty and duplicate entries), 6 slash / explicit-executable cases, a name that exists only in the child's cwd (ENOENT), a non-executable only candidate (EACCES), and a child environment whose PATH differs from the parent's")]),
     "C17": dict(units=["spawn", "exec"], kani=["w_chdir"], level="proof",
-                bounded_scenarios=[("c17_child_allocs", "96 spawns with a counting allocator armed in the forked child: 8 PATH shapes (longest entry first/middle/last/single/40 entries/empty entries) x 3 cwd lengths (none, 4, 500 bytes) x {exec succeeds, program not found} x {small, 50 args + 60 env entries + pipes}")]),
+                bounded_scenarios=[("c17_child_allocs", "216 spawns with a counting allocator armed in the forked child: 9 PATH shapes (longest entry first/middle/last/single/40 entries/empty entries/empty PATH) x 3 cwd lengths (none, 4, 500 bytes) x 4 program names (found on PATH, not found, absolute path, missing relative path with a slash) x {small, 50 args + 60 env entries + pipes}")]),
     "C20": dict(units=["wincmd"], kani=[], level="proof",
                 natives=[("units/native/wincmd.nt.rs", "28907 argument vectors: 1 argument of length 0..4, pairs (length 0..2, first 400 of length 0..4) and triples of length 0..2 over the alphabet {a, space, tab, newline, double quote, backslash, U+00E9}; 57 arguments containing NUL")]),
     "C19": dict(units=["quote"], kani=[], level="proof",
-                bounded_scenarios=[("c19_shell_roundtrip", "1778 argument vectors (1-2 arguments of length 0..3 over the alphabet a,space,',\",$,*,\\,newline,e-acute, plus 24 hand-picked strings) printed through Debug and evaluated by the real /bin/sh; one two-stage pipeline")]),
+                bounded_scenarios=[("c19_shell_roundtrip", "1778 argument vectors (1-2 arguments of length 0..3 over the alphabet a,space,',\",$,*,\\,newline,e-acute, plus 24 hand-picked strings) printed through Debug and evaluated by the real /bin/sh; the Debug output of pipelines of 2..5 commands in every composition shape (iterator, left-nested |, pipeline | pipeline)")]),
     "C18": dict(units=["spawn"], kani=["w_reset_sigpipe"], level="proof"),
     "C12": dict(units=["builder", "pstate"], kani=["w_reset_sigpipe"], level="proof",
                 bounded_scenarios=[("c12_handle_cleanup", "45 owning handles through the real crate: dropped Popen, join, capture of a command and of a pipeline against 6 child behaviours (cat; ignores input; closes stdin early then writes 300000 bytes to stdout / to stderr; floods stderr then cat; closes its outputs early and keeps working) x 3 input sizes (none, 20, 1000000 bytes), the five stream adapters dropped early; each must return within seconds and leave no child running or unreaped")]),
@@ -56,7 +57,8 @@ PROPS = {
                 bounded_scenarios=[("c14_partial_failure", "123 failing pipelines: n = 2..4 `cat` stages, every failing position, stdin null/pipe/data, popen/join/capture/communicate/stream_stdout/stream_stdin, and for capture/communicate also started commands that first write 300000 bytes to their stderr; promptness, no child left, descriptor count")]),
     "C16": dict(units=["builder"], bounded_scenarios=[("c16_builder_model", "1631 command descriptions: every sequence of up to 3 of 9 builder edits (env/env_remove/env_clear/env_extend/arg), each also through a clone taken half-way, run through the real crate and /bin/sh against a plain model")],
                 kani=["r_exec_stdin_refuses", "r_exec_stdout_refuses", "r_exec_stderr_refuses", "r_exec_terminators_refuse_data", "w_exec_stdin_accepts"], level="proof"),
-    "C08": dict(units=["spawn", "builder"], kani=["w_pipe", "w_set_inheritable", "w_make_standard_stream"], level="proof"),
+    "C08": dict(units=["spawn", "builder"], kani=["w_pipe", "w_set_inheritable", "w_make_standard_stream"], level="proof",
+                bounded_scenarios=[("c08_fd_audit", "2 x 48 descriptor tables read back from real children (/proc/$$/fd): single commands under all 8 inherit/pipe combinations alone and with three other Popens alive, 4 merge variants, every stage of 2..4-command pipelines run by join / capture / stream_stdout, 100 children spawned concurrently from four threads; all of it a second time in a parent whose descriptors 0 and 2 are closed; a child may hold 0, 1, 2 and nothing else")]),
     "C09": dict(units=["pstate"], kani=["w_decode_exit_status", "w_waitpid"], level="proof"),
     "C10": dict(units=["pstate"], kani=["w_kill", "w_waitpid"], level="proof"),
     "C11": dict(units=["pstate"], kani=[], level="proof",
